@@ -57,6 +57,19 @@ CLAIMED = {
         note='trusted: Coq kernel + vm_compute; hand-written model of client.py validated on generated inputs only; scripted transport.',
         technique='Coq proof (Permutation-based reasoning about the id->response map, induction over the request list) + correspondence by vm_compute',
         design='6 C08'),
+    'C09': dict(
+        text='Theorems about the model of retry()/retry_async() and the backoff generators, for outcome scripts and strategies of ANY '
+             'length: sends <= attempts+1; the number of sends is one more than the number of leading retryable outcomes capped by the '
+             'attempts (listed code on a response or batch-level error; listed exception class or subclass); the caller gets the last '
+             'attempt\'s outcome object unchanged; the pauses are exactly the first sends-1 delays; closed forms of the three generators '
+             'proved for every index (periodic interval+j, exponential min?(cap, base*factor^k+j), Fibonacci min?(cap, mult*fib(k+2)+j) by '
+             'an invariant on the (prev,cur) state); unlisted outcomes, successes and notifications return at once; per-request strategy '
+             'overrides, None disables. Correspondence: exhaustive outcome scripts with patched sleeps compared as exact rationals.',
+        note='trusted: Coq kernel + vm_compute; hand-written model of retry.py and the retried wrapper validated on generated inputs only; IEEE-754 '
+             'arithmetic is exact on the dyadic parameters used (delays are compared as Fraction(float) with the model rationals); the issubclass '
+             'table of the harness exception classes is transcribed in Model/Retry.v.',
+        technique='Coq proof (induction over the outcome script; generator-state invariant for Fibonacci) + correspondence by vm_compute over exact rationals',
+        design='6 C09'),
     'C12': dict(
         text='Theorems for stacks of ANY height: with no short-circuit the trace is Enter 0..k-1, inner handler on the fully rewritten '
              'request, Exit k-1..0 and the chain returns what the outermost returns; a short-circuiting middleware makes the outcome '
@@ -100,6 +113,16 @@ CLAIMED = {
              'inputs); term printer; JSON values typed as json.loads produces them.',
         technique='Coq proof (structural induction over json / operation histories) + model-vs-implementation correspondence by vm_compute',
         design='6 C06'),
+    'C19': dict(
+        text='Theorems about the model of the traced wrapper composed under the retry loop (retried(traced(_send))), for any number of '
+             'tracers and attempts: every attempt sent is traced; per attempt every tracer receives begin and then exactly one completion '
+             '(end with the response, nothing for a notification; error with the raised exception, BaseException included) in configuration '
+             'order with one context object (the caller\'s if supplied, else one fresh per attempt); begin count = completion count per tracer; '
+             'tracing does not change the caller\'s outcome. Correspondence: outcome scripts incl. undecodable bodies, identity mismatches, '
+             'KeyboardInterrupt and CancelledError with instrumented tracers recording context identity.',
+        note='trusted: Coq kernel + vm_compute; hand-written model of the traced/retried wrappers validated on generated inputs only; instrumented Tracer subclasses.',
+        technique='Coq proof (induction over the attempts sent) + correspondence by vm_compute',
+        design='6 C19'),
 }
 
 PENDING_REASON = 'not claimed yet: model, theorems and correspondence for this property are not all in place in this commit (see DESIGN.md section 10)'
